@@ -76,6 +76,104 @@ static bool elem(const char *w, bytes_t *a) {
     return true;
 }
 
+/* ---- `huge <count> <objsize>` (thorough tier only, no model line): self-checking pass over a
+ * vector whose byte size exceeds 2^31. The harness fills a vector with <count> elements whose
+ * bytes are a function of an id, mirrors addfirst / addat(k) / addat(-k) / removefirst /
+ * removeat(k) / popat(k) on a plain id array of its own and after EVERY step walks the whole
+ * vector with getnext, comparing every element with the function. Prints `ok` or the first
+ * mismatch. */
+static void hg_gen(uint32_t id, unsigned char *buf, size_t os) {
+    uint64_t x = ((uint64_t) id + 1) * 0x9E3779B97F4A7C15ULL;
+    size_t w = 0;
+    for (; w + 8 <= os; w += 8) { uint64_t v = x ^ (w * 0x100000001B3ULL); memcpy(buf + w, &v, 8); }
+    for (; w < os; w++) buf[w] = (unsigned char) ((x >> ((w & 7) * 8)) ^ w);
+}
+static int hg_verify(qvector_t *v, const uint32_t *ids, size_t n, size_t os, unsigned char *tmp, const char *step) {
+    if (qvector_size(v) != n) { printf("mismatch after %s: size %zu, expected %zu", step, qvector_size(v), n); return 0; }
+    qvector_obj_t o; memset(&o, 0, sizeof(o));
+    size_t i = 0;
+    while (qvector_getnext(v, &o, false)) {
+        if (i >= n) { printf("mismatch after %s: walk longer than %zu", step, n); return 0; }
+        hg_gen(ids[i], tmp, os);
+        if (memcmp(o.data, tmp, os) != 0) { printf("mismatch after %s: element %zu of %zu is not the expected one", step, i, n); return 0; }
+        i++;
+    }
+    if (i != n) { printf("mismatch after %s: walk ended after %zu of %zu", step, i, n); return 0; }
+    /* spot checks through getat from both ends */
+    size_t probes[6] = {0, 1, n / 2, n - 2, n - 1, n / 3};
+    for (int k = 0; k < 6; k++) {
+        size_t p = probes[k]; if (p >= n) continue;
+        void *d = qvector_getat(v, (int) p, false);
+        hg_gen(ids[p], tmp, os);
+        if (d == NULL || memcmp(d, tmp, os) != 0) { printf("mismatch after %s: getat(%zu)", step, p); return 0; }
+        d = qvector_getat(v, (int) p - (int) n, false);
+        if (d == NULL || memcmp(d, tmp, os) != 0) { printf("mismatch after %s: getat(%zu - n)", step, p); return 0; }
+    }
+    return 1;
+}
+static void hg_ins(uint32_t *ids, size_t *n, size_t pos, uint32_t id) {
+    memmove(ids + pos + 1, ids + pos, (*n - pos) * sizeof(*ids)); ids[pos] = id; (*n)++;
+}
+static void hg_del(uint32_t *ids, size_t *n, size_t pos) {
+    memmove(ids + pos, ids + pos + 1, (*n - pos - 1) * sizeof(*ids)); (*n)--;
+}
+static void do_huge(size_t count, size_t os) {
+    if (count < 8 || count > 0x7ffffff0u || os == 0) { printf("bad-op"); return; }
+    /* half of the final capacity first: the fill also goes through one big realloc (double policy) */
+    qvector_t *v = qvector(count / 2 + 1, os, QVECTOR_RESIZE_DOUBLE);
+    uint32_t *ids = malloc((count + 8) * sizeof(*ids));
+    unsigned char *tmp = malloc(os), *el = malloc(os);
+    size_t n = 0; uint32_t next = 0; int ok = 0;
+    if (v == NULL || ids == NULL || tmp == NULL || el == NULL) { printf("no-memory"); goto out; }
+    for (size_t i = 0; i < count; i++) {
+        hg_gen(next, el, os);
+        if (!qvector_addlast(v, el)) { printf("mismatch: addlast #%zu failed (%s)", i, errname(errno)); goto out; }
+        ids[n++] = next++;
+    }
+    if (!hg_verify(v, ids, n, os, tmp, "fill")) goto out;
+    size_t k = count / 3;
+    hg_gen(next, el, os);
+    if (!qvector_addfirst(v, el)) { printf("mismatch: addfirst failed"); goto out; }
+    hg_ins(ids, &n, 0, next++);
+    if (!hg_verify(v, ids, n, os, tmp, "addfirst")) goto out;
+    hg_gen(next, el, os);
+    if (!qvector_addat(v, (int) k, el)) { printf("mismatch: addat(k) failed"); goto out; }
+    hg_ins(ids, &n, k, next++);
+    if (!hg_verify(v, ids, n, os, tmp, "addat(k)")) goto out;
+    hg_gen(next, el, os);
+    if (!qvector_addat(v, -(int) k, el)) { printf("mismatch: addat(-k) failed"); goto out; }
+    hg_ins(ids, &n, n - k, next++);
+    if (!hg_verify(v, ids, n, os, tmp, "addat(-k)")) goto out;
+    if (!qvector_removefirst(v)) { printf("mismatch: removefirst failed"); goto out; }
+    hg_del(ids, &n, 0);
+    if (!hg_verify(v, ids, n, os, tmp, "removefirst")) goto out;
+    if (!qvector_removeat(v, (int) k)) { printf("mismatch: removeat(k) failed"); goto out; }
+    hg_del(ids, &n, k);
+    if (!hg_verify(v, ids, n, os, tmp, "removeat(k)")) goto out;
+    {
+        void *d = qvector_popat(v, 1);
+        hg_gen(ids[1], tmp, os);
+        if (d == NULL || memcmp(d, tmp, os) != 0) { printf("mismatch: popat(1) returned the wrong element"); vf_free(d); goto out; }
+        vf_free(d);
+        hg_del(ids, &n, 1);
+        if (!hg_verify(v, ids, n, os, tmp, "popat(1)")) goto out;
+        d = qvector_popat(v, -2);
+        hg_gen(ids[n - 2], tmp, os);
+        if (d == NULL || memcmp(d, tmp, os) != 0) { printf("mismatch: popat(-2) returned the wrong element"); vf_free(d); goto out; }
+        vf_free(d);
+        hg_del(ids, &n, n - 2);
+        if (!hg_verify(v, ids, n, os, tmp, "popat(-2)")) goto out;
+    }
+    qvector_reverse(v);
+    for (size_t i = 0, j = n - 1; i < j; i++, j--) { uint32_t t = ids[i]; ids[i] = ids[j]; ids[j] = t; }
+    if (!hg_verify(v, ids, n, os, tmp, "reverse")) goto out;
+    ok = 1;
+out:
+    if (v) qvector_free(v);
+    free(ids); free(tmp); free(el);
+    if (ok) printf("ok live=%ld", live_blocks());
+}
+
 static int do_op(int nw, char **w) {
     const char *op = w[0];
     bytes_t a = {0, 0};
@@ -178,6 +276,12 @@ int main(void) {
             V = NULL;
             long bad = check_kept();
             printf("end live=%ld bad=%ld\n", aw_live, bad); fflush(stdout); continue;
+        }
+        if (!strcmp(w[0], "huge") && nw == 3) {
+            if (V) qvector_free(V);
+            V = NULL;
+            do_huge(strtoull(w[1], NULL, 10), strtoull(w[2], NULL, 10));
+            printf("\n"); fflush(stdout); continue;
         }
         if (!strcmp(w[0], "new") && nw == 4) {
             if (V) qvector_free(V);
